@@ -38,7 +38,10 @@ RULE = ("one run = one blob (content of n bytes, n swarmed over 1..2 MiB incl. 1
         "chunk, cut at last byte, boundary on / straddling byte n); the explicit op list interleaves chunk "
         "writes, loop-callback steps, executor completion, late opens, aborts, set_length, close(), delete(). "
         "Safety invariants are checked after every loop handle and every action, liveness at quiescence in "
-        "histories without close()/delete(). Non-trivial = >=2 writers opened or >=1 bad writer wrote; "
+        "histories without close()/delete(). Sub-family `retry` (5 %): a peer whose copy just failed opens a new "
+        "writer under the same key before the old one's callbacks ran, a third peer completes. 30 % of runs end with a "
+        "second download epoch on the same blob object (stored copy dropped by delete() or by the consuming read of a "
+        "BlobBuffer, then fetched again: must verify with exactly the bytes). Non-trivial = >=2 writers opened or >=1 bad writer wrote; "
         "distinct = distinct event-trace digest.")
 COMPONENTS = {
     'real': ['lbry.blob.writer.HashBlobWriter', 'lbry.blob.blob_file.AbstractBlob/BlobFile/BlobBuffer',
